@@ -113,6 +113,7 @@ INVARIANT C21_MessageNamesOrigin
 INVARIANT C21_DebugOnlyDiffersInPrint
 INVARIANT C21_LoggingKeepsBase
 INVARIANT C21_TestsSeparateDefinedFromUndefined
+INVARIANT C21_EqualityFollowsType
 """
 
 
@@ -196,13 +197,20 @@ def direct_realisations(W):
     }
     for op, fn in BIN.items():
         R[op] = [("l", (lambda f: lambda u, o: f(u, o))(fn)), ("r", (lambda f: lambda u, o: f(o, u))(fn))]
-    R["pow"] = R["pow"] + [("l", lambda u, o: pow(u, o)), ("r", lambda u, o: pow(o, u))]
+    R["pow"] = R["pow"] + [("l:pow", lambda u, o: pow(u, o)), ("r:pow", lambda u, o: pow(o, u))]
+    # a sequence looks for a value by asking `element == value` of every element that is not the value itself
+    # (realisation names of binary operations start with the operand side they realise)
+    R["eq"] = R["eq"] + [("r:in_list", lambda u, o: u in [o]), ("l:in_list", lambda u, o: o in [u]),
+                         ("r:list_count", lambda u, o: [o].count(u) == 1), ("l:tuple_count", lambda u, o: (u,).count(o) == 1)]
     return R
 
 
 ORIGIN_EXPR = {"name": VAR, "attr": f"o.{ATTR}", "item_str": f"d['{KEY}']", "item_int": f"d[{INTKEY}]", "hint": "h"}
 ACCESS_SRC = {"getattr": f".{CHAIN_ATTR}", "getitem_str": f"['{CHAIN_KEY}']", "getitem_int": f"[{CHAIN_IDX}]"}
-OTHER_SRC = {"int": "42", "float": "1.5", "str": "'s'", "list": "[1]", "none": "none", "undef": OTHER_VAR, "none_": ""}
+FOREIGN = {"u_Undefined": "Undefined", "u_Chainable": "Chainable", "u_Debug": "Debug", "u_Strict": "Strict"}
+NOELSE_SRC = "('a' if false)"
+OTHER_SRC = {"int": "42", "float": "1.5", "str": "'s'", "list": "[1]", "none": "none", "undef": OTHER_VAR, "none_": "",
+             "noelse": NOELSE_SRC, **{k: f"f_{v}" for k, v in FOREIGN.items()}}
 BIN_SRC = {"add": "+", "sub": "-", "mul": "*", "truediv": "/", "floordiv": "//", "mod": "%", "pow": "**",
            "lt": "<", "le": "<=", "gt": ">", "ge": ">=", "eq": "==", "ne": "!="}
 
@@ -240,6 +248,11 @@ TEMPLATE = {
 for _op, _sym in BIN_SRC.items():
     TEMPLATE[_op] = [("l", "{{ <E> %s <O> }}" % _sym, {"true": "True", "false": "False"}),
                      ("r", "{{ <O> %s <E> }}" % _sym, {"true": "True", "false": "False"})]
+TEMPLATE["eq"] = TEMPLATE["eq"] + [("r:in_list", "{{ <E> in [<O>] }}", {"true": "True", "false": "False"}),
+                                   ("l:in_list", "{{ <O> in [<E>] }}", {"true": "True", "false": "False"}),
+                                   ("l:if", "{% if <E> == <O> %}True{% else %}False{% endif %}", {"true": "True", "false": "False"})]
+TEMPLATE["ne"] = TEMPLATE["ne"] + [("r:not_in_list", "{{ <E> not in [<O>] }}", {"true": "True", "false": "False"}),
+                                   ("l:not_in_tuple", "{{ <O> not in (<E>,) }}", {"true": "True", "false": "False"})]
 # the async iteration protocol is what an async environment uses for the same syntax
 TEMPLATE_ASYNC_ONLY = {"aiter": TEMPLATE["iter"]}
 
@@ -283,10 +296,34 @@ class World:
     def other(self, kind):
         if kind == "undef":
             return self.env.compile_expression(OTHER_VAR, undefined_to_none=False)()
+        if kind == "noelse":
+            # evaluated in the environment under test, whatever its undefined type
+            return self.env.compile_expression(NOELSE_SRC, undefined_to_none=False)()
+        if kind in FOREIGN:
+            return foreign_env(FOREIGN[kind]).compile_expression(OTHER_VAR, undefined_to_none=False)()
         return {"int": 42, "float": 1.5, "str": "s", "list": [1], "none": None}.get(kind)
 
     def context(self, env):
-        return {"o": Holder(), "d": {}, "h": env.undefined(hint=self.hint)}
+        ctx = {"o": Holder(), "d": {}, "h": env.undefined(hint=self.hint)}
+        for kind, base in FOREIGN.items():
+            ctx[OTHER_SRC[kind]] = self.other(kind)
+        return ctx
+
+
+_FOREIGN_ENV = {}
+
+
+def foreign_env(base):
+    """A second environment whose undefined type is the plain class `base`."""
+    import jinja2
+    from jinja2 import runtime
+
+    env = _FOREIGN_ENV.get(base)
+    if env is None:
+        cls = {"Undefined": runtime.Undefined, "Chainable": runtime.ChainableUndefined,
+               "Debug": runtime.DebugUndefined, "Strict": runtime.StrictUndefined}[base]
+        env = _FOREIGN_ENV[base] = jinja2.Environment(undefined=cls)
+    return env
 
 
 _CODE = {}
@@ -470,7 +507,7 @@ def run_control(ck, W, case):
 def run_direct(ck, W, case, only=None):
     n = 0
     for via, fn in W.direct[case["op"]]:
-        if case["op"] in BIN and via != case["side"]:
+        if case["op"] in BIN and via.split(":")[0] != case["side"]:
             continue
         if only and via != only:
             continue
@@ -509,7 +546,7 @@ def template_forms(case, is_async):
     E = ORIGIN_EXPR[case["origin"]] + "".join(ACCESS_SRC[a] for a in case["path"])
     out = []
     for via, src, tmap in forms:
-        if op in BIN and via != case["side"]:
+        if op in BIN and via.split(":")[0] != case["side"]:
             continue
         s = src.replace("<E>", E).replace("<O>", OTHER_SRC.get(case["other"], ""))
         out.append((via, s, tmap))
@@ -629,13 +666,14 @@ def run(ck):
     ck.extra["excluded_shapes"] = [
         "'s' % undefined (str formatting decides, the undefined operand is never asked)",
         "pickling instances of the function-local class made by make_logging_undefined",
-        "== / != against an undefined of a *different* class (not documented)",
+        "<, +, ... (the operations that simply fail) with a second undefined of a *different* class",
         "operators Undefined does not define (@, <<, &, divmod, abs, round, ~x, index): TypeError from Python itself",
         "int/float *filters* on undefined (filter documentation, C23)",
         "undefined values whose exception class is not UndefinedError (sandbox unsafe_undefined)",
     ]
     ck.assumptions += [
-        "other operands are int, float, str, list, None and a second undefined of the same class",
+        "other operands are int, float, str, list, None, a second undefined of the same class and, for == / !=, a second "
+        "undefined of each plain class (made by a second environment) and the value of an else-less inline if",
         "log records are observed through a logging.Handler attached to the logger given to make_logging_undefined",
     ]
 
